@@ -258,7 +258,7 @@ def _run_batch(job):
     env = {"ASAN_OPTIONS": ASAN_OPTS} if flavour == "asan" else None
     while pos < end:
         r = nat.run_exe(exe, ["fuzz", lists[0], lists[1], seed, pos, end - pos, per_input_timeout], flavour,
-                        timeout=max(600, (end - pos) * 2 + 300), env=env)
+                        timeout=max(900, (end - pos) * 6 + 600), env=env)
         lines = r["out"].splitlines()
         last_b = None
         in_run = False
